@@ -36,10 +36,13 @@ type tEvent struct {
 	Res      any     `json:"res"` // [][]int for query, bool for contains
 	Cd       []int   `json:"cd"`
 	Nodes    []tNode `json:"nodes"`
+	Lo       []int   `json:"lo"`      // dobounded: the closed query box
+	Hi       []int   `json:"hi"`      //
+	Stopped  bool    `json:"stopped"` // dobounded: the value DoBounded returned
 }
 
 func blank(ev string) tEvent {
-	return tEvent{Ev: ev, Pts: [][]int{}, P: []int{}, Q: []int{}, Res: [][]int{}, Cd: []int{}, Nodes: []tNode{}}
+	return tEvent{Ev: ev, Pts: [][]int{}, P: []int{}, Q: []int{}, Res: [][]int{}, Cd: []int{}, Nodes: []tNode{}, Lo: []int{}, Hi: []int{}}
 }
 
 func toInts(f []float64) []int {
@@ -77,6 +80,7 @@ func recordIndexTrace(out *core.Out, args []string, seed int64, sum *core.Summar
 	runs := atoi(am["runs"], 6)
 	maxn := atoi(am["maxn"], 2000)
 	nq := atoi(am["queries"], 12)
+	boxOnly := am["boxes"] == "only" // only build / insert / dobounded events (kdtree.DoBounded), else none of the latter
 	rng := rand.New(rand.NewPCG(uint64(seed), 77+uint64(len(am["salt"]))*1000+uint64(atoi(am["runs"], 0))))
 	if am["salt"] == "b" {
 		rng = rand.New(rand.NewPCG(uint64(seed)+0x9e3779b9, 78))
@@ -121,6 +125,10 @@ func recordIndexTrace(out *core.Out, args []string, seed int64, sum *core.Summar
 		ev.Bounded = t.Root != nil && t.Root.Bounding != nil
 		out.Emit(ev)
 		queries := func() {
+			if boxOnly {
+				boxQueries(out, sum, rng, t, bag, dim, span, nq)
+				return
+			}
 			// a vp-tree of the same bag
 			vs := make([]vptree.Comparable, len(bag))
 			for i, p := range bag {
@@ -241,6 +249,40 @@ func recordIndexTrace(out *core.Out, args []string, seed int64, sum *core.Summar
 		sum.Traces++
 	}
 	return nil
+}
+
+// boxQueries logs what kdtree.DoBounded visits for nq closed boxes whose faces lie on
+// stored coordinates (ties on the splitting planes), between and outside them.
+func boxQueries(out *core.Out, sum *core.Summary, rng *rand.Rand, t *kdtree.Tree, bag [][]int, dim, span, nq int) {
+	for i := 0; i < nq; i++ {
+		lo, hi := make([]int, dim), make([]int, dim)
+		for j := range lo {
+			a, b := rng.IntN(2*span+3)-1, rng.IntN(2*span+3)-1
+			if len(bag) > 0 && rng.IntN(2) == 0 {
+				a = bag[rng.IntN(len(bag))][j]
+			}
+			if len(bag) > 0 && rng.IntN(2) == 0 {
+				b = bag[rng.IntN(len(bag))][j]
+			}
+			if rng.IntN(6) == 0 {
+				a, b = -1, 2*span+1
+			}
+			if a > b {
+				a, b = b, a
+			}
+			lo[j], hi[j] = a, b
+		}
+		e := blank("dobounded")
+		e.Lo, e.Hi = lo, hi
+		res := [][]int{}
+		e.Stopped = t.DoBounded(&kdtree.Bounding{Min: toPoint(lo), Max: toPoint(hi)}, func(c kdtree.Comparable, _ *kdtree.Bounding, _ int) bool {
+			res = append(res, toInts(c.(kdtree.Point)))
+			return false
+		})
+		e.Res = res
+		out.Emit(e)
+		sum.Count("box_queries", 1)
+	}
 }
 
 func isSquare(n int) bool {
